@@ -17,7 +17,7 @@ inline const char* RF_DATA = "/RFKicks/data";
 // ---- swarm configuration generator (program mode)
 struct SwarmOpts {
     long max_grid = 48, min_grid = 12;
-    long max_steps = 40, min_steps = 4;   // steps per synchrotron period
+    long max_steps = 40, min_steps = 10;  // steps per synchrotron period (fewer is not a meaningful kick-drift scheme: tan(2*pi/4) diverges)
     double max_rot_steps = 12;            // run length in steps (upper bound)
     double min_rot_steps = 2;
     bool allow_wake = true, allow_multibunch = true, allow_tracking = true, allow_dynrf = true;
